@@ -77,8 +77,11 @@ def fixtures():
     class Churn(core.System):
         """Adds / removes agents at scripted timesteps."""
 
-        def __init__(self, id, model, script, priority):
-            super().__init__(id, model, priority=priority)
+        def __init__(self, id, model, script, priority=None):
+            if priority is None:
+                super().__init__(id, model)          # the framework's default system priority
+            else:
+                super().__init__(id, model, priority=priority)
             self.script = script
 
         def execute(self):
@@ -127,7 +130,7 @@ def case_agent(ctx, case):
             if rng.random() < 0.35:
                 s[t] = [(rng.choice(['add', 'del']), rng.choice(ids), rng.randint(0, 99)) for _ in range(rng.randint(1, 2))]
         return s
-    before, after = script(), script()
+    before, after, late = script(), script(), script()
     default_prio = rng.random() < 0.6
     cprio = -1 if default_prio else rng.choice([-1, 0, 1, -2])
     if default_prio:
@@ -164,7 +167,10 @@ def case_agent(ctx, case):
         kw['priority'] = cprio
     c = col.AgentCollector(model, f, **kw)
     model.systems.add_system(c)
-    check(c.priority == (-1 if default_prio else cprio), 'collector priority is not the documented default -1' if default_prio else 'priority not kept')
+    if default_prio:
+        # a system with the framework's default priority registered AFTER the collector: with default settings the collector
+        # still observes the state this system leaves
+        model.systems.add_system(Churn('late_default', model, late))
     pop = {}                  # reference population: id -> value, insertion ordered
     history = []              # deep copies of records as first seen
     flags = set()
@@ -182,7 +188,8 @@ def case_agent(ctx, case):
                 env.add_agent(a)
                 pop[aid] = v
         # what the collector must see: the population after the 'before' system acted
-        for kind, aid, v in before.get(t, ()):
+        ev_before, ev_late = list(before.get(t, ())), (list(late.get(t, ())) if default_prio else [])
+        for kind, aid, v in (ev_before + ev_late if pb >= 0 else ev_late + ev_before):     # order of the two systems by priority
             if kind == 'add' and aid not in pop:
                 pop[aid] = v
                 ctx.count('mid_step_population_changes'); flags.add('mid')
